@@ -193,6 +193,9 @@ def rule_enable(ctx):
         ctx.holds("C12.ENABLE", f.short, "enableBLOB from unregistered / absent / device senders is ignored without raising", fi=f)
 
 
+# kind/name dispatch table
+IMPORTS = [('C06', 'C06.KEY')]
+
 RULES = [
     ("C12.ESCAPE", rule_escape, "fault catalogue x may-raise primitives: nothing escapes Driver.message_from_client; only validly named elements change"),
     ("C12.INLOOP", rule_inloop, "server transports contain router errors per message, not around the loop"),
